@@ -295,7 +295,8 @@ func (s asciiString) StrictEquals(other Value) bool {
 		return s == otherStr
 	}
 	if otherStr, ok := other.(*importedString); ok {
-		if otherStr.u == nil {
+		// no need to scan: only an ASCII string can be equal byte for byte (otherStr.u must not be read before scanned is set)
+		if !otherStr.scanned.Load() || otherStr.u == nil {
 			return string(s) == otherStr.s
 		}
 	}
